@@ -103,7 +103,7 @@ Iterator(p) ==
   /\ UNCHANGED <<map, inc, igen, emap>>
   /\ IF Under(p) = {}
      THEN UNCHANGED imap /\ Log([a |-> "iterator", k |-> p, r |-> <<"none">>])
-     ELSE /\ imap' = Append(imap, [prefix |-> p, started |-> FALSE, last |-> <<>>, deleted |-> FALSE, snap |-> Under(p)])
+     ELSE /\ imap' = Append(imap, [prefix |-> p, started |-> FALSE, last |-> <<>>, deleted |-> FALSE, snap |-> Under(p), exhausted |-> FALSE])
           /\ Log([a |-> "iterator", k |-> p, r |-> <<"some", igen, Len(imap)>>])
 
 Remaining(i) == {k \in Under(imap[i].prefix) : ~imap[i].started \/ LexLess(imap[i].last, k)}
@@ -115,7 +115,9 @@ IterNext(h) ==
      THEN UNCHANGED <<emap, imap>> /\ Log([a |-> "iternext", h |-> h, rf |-> TRUE, r |-> <<"err">>])
      ELSE LET i == h[2] + 1 IN
           IF Remaining(i) = {}
-          THEN UNCHANGED <<emap, imap>> /\ Log([a |-> "iternext", h |-> h, r |-> <<"none">>])
+          THEN /\ UNCHANGED emap
+               /\ imap' = [imap EXCEPT ![i].exhausted = TRUE]    \* the documentation says where the key points after a next that RETURNED an entry; after an exhausted next it is unspecified
+               /\ Log([a |-> "iternext", h |-> h, r |-> <<"none">>])
           ELSE LET k == Least(Remaining(i)) IN
                /\ imap' = [imap EXCEPT ![i].started = TRUE, ![i].last = k]
                /\ emap' = Append(emap, [key |-> k, inc |-> IncOf(k)])
@@ -139,6 +141,8 @@ IterKeyRead(h, len, off) ==
   /\ UNCHANGED <<map, inc, igen, emap, imap>>
   /\ IF ~ValidIter(h)
      THEN Log([a |-> "iterkey", h |-> h, len |-> len, off |-> off, r |-> <<"max">>])
+     ELSE IF imap[h[2] + 1].exhausted
+     THEN Log([a |-> "iterkey", h |-> h, len |-> len, off |-> off, r |-> <<"any">>])
      ELSE LET key == IterKey(h[2] + 1)
               o == Min2(Len(key), off)
               n == Min2(Len(key) - o, len)
